@@ -17,7 +17,8 @@ RULE = ("cases: (server set with seeds / connection state / certificates, prefer
         "least two candidate servers (the sort decides); distinct = distinct (server ids, seeds, preferred, permitted, storage "
         "index, instant); and tahoe.cfg texts with a [grid_managers] section (well-formed, unusable entries only, good + bad, absent) "
         "taken through config_from_string / from_node_config to a broker; and real in-process grids (upload, lost shares, check-and-repair, "
-        "mutable publish, later upload) whose servers answer upload_permitted() from real certificates")
+        "mutable publish, later upload) whose servers answer upload_permitted() from real certificates; and (forced, every run) brokers on "
+        "the DEFAULT clock under 9 process time zones with certificates expiring -30h..+30h from the true UTC now")
 META = {
     "title": "Servers are ordered consistently and upload permission is enforced",
     "level_text": ("Theorems in Coq over a model of StorageFarmBroker.get_servers_for_psi (stable sort by (unpreferred, SHA-1(psi ++ "
@@ -360,6 +361,7 @@ def run(ctx):
     aging(ctx, cfg, terms, info)
     gm_config(ctx, terms, info)
     repair_grid(ctx, terms, info)
+    default_clock(ctx, cfg, terms, info)
     # one evaluation for all three correspondences (loading the SHA-1 development dominates small batches)
     bad = ctx.coq_check(IMPORTS, terms, tag="c32", shard=max(20, (len(terms) + 7) // 8))
     for ix in bad:
@@ -842,6 +844,83 @@ def repair_grid(ctx, terms, info, only=None):
             cap2 = g.run(g.upload(rbytes(r, 500), convergence=b""), outcome=True)
             if cap2.status == "ok":
                 holders_ok("later-upload", cap2.value, g.share_map(cap2.value), 3)
+
+
+def default_clock(ctx, cfg, terms, info):
+    """Forced cases, every run: a real StorageFarmBroker whose server objects use the verifier's DEFAULT clock (nothing
+    patched, no now_fn), certificates really signed and expiring -30h, -6h, -1.5h, +1.5h, +6h, +30h from the true UTC
+    present, under several process time zones.  Expiry is an absolute instant: uploads are permitted exactly for the servers
+    whose certificate expires after the true UTC now, whatever TZ says; the read order is unaffected."""
+    import os
+    import time
+    from allmydata.util import base32
+    # pin: the model takes "now" as the true UTC instant; that is what this function's body must say
+    import ast
+    import inspect
+    import allmydata.grid_manager as gm
+    ctx.correspondence("default-clock-is-utc-now")
+    fn = ast.parse(inspect.getsource(gm.current_datetime_with_zone)).body[0]
+    body = [n for n in fn.body if not (isinstance(n, ast.Expr) and isinstance(getattr(n, "value", None), ast.Constant))]
+    if [ast.dump(n) for n in body] != [ast.dump(n) for n in ast.parse("return datetime.now(timezone.utc)").body]:
+        ctx.mismatch("default-clock-source-changed", "grid_manager.current_datetime_with_zone is no longer `return datetime.now(timezone.utc)`",
+                     case={"stream": "default-clock"}, observed=ast.unparse(fn), correspondence="default-clock-is-utc-now")
+    saved = os.environ.get("TZ")
+    zones = ["UTC", "Etc/GMT+8", "Etc/GMT-9", "Asia/Kolkata", "PST8", "JST-9", "IST-5:30", "HST10", "NZST-12"]
+    try:
+        for zi, tz in enumerate(zones):
+            r = ctx.rng("default-clock", zi)
+            os.environ["TZ"] = tz
+            time.tzset()
+            real = datetime.fromtimestamp(time.time(), timezone.utc)        # independent of TZ
+            w = c33.World()
+            gk = r.randrange(c33.NGM)
+            servers = []
+            offsets = [-30, -6, -1.5, 1.5, 6, 30]
+            r.shuffle(offsets)
+            for off in offsets:
+                sid = b"v0-" + base32.b2a(rbytes(r, 32))
+                exp = real + timedelta(hours=off)
+                data = c33.cert_bytes(b"pub-" + sid, exp.isoformat() if r.random() < 0.5 else exp.astimezone(timezone(timedelta(hours=5, minutes=30))).isoformat())
+                servers.append(dict(id=sid, seed=rbytes(r, 20), connected=True, unparseable=None, offset_hours=off,
+                                    certs=[dict(kind="expires%+gh" % off, data=data, sig=w.sign(gk, data), exp=exp, static_ok=True, ok=off > 0, garbage=False)]))
+            W = dict(world=w, keys=[gk], now=real, servers=servers, preferred=(), psi=rbytes(r, 16))
+            set_time(W, real)
+            idx = dict((s_["id"], k) for k, s_ in enumerate(servers))
+            with contextlib.redirect_stdout(io.StringIO()):
+                sb = build_broker(W, list(range(len(servers))), cfg)                # default clock: nothing patched here
+                seeds = dict((sid, srv.get_permutation_seed()) for sid, srv in sb.servers.items())
+                enum = [srv.get_serverid() for srv in sb.get_connected_servers()]
+                got = dict((fu, [srv.get_serverid() for srv in sb.get_servers_for_psi(W["psi"], for_upload=fu)]) for fu in (False, True))
+                perm = dict((sid, srv.upload_permitted()) for sid, srv in sb.servers.items())
+            cinfo = dict(describe(W), stream="default-clock", index=zi, TZ=tz, true_utc_now=real.isoformat(),
+                         expiry_offsets_hours=dict((s_["id"].decode(), s_["offset_hours"]) for s_ in servers))
+            ctx.case(("default-clock", tz, tuple(got[True])), kind="default-clock:" + ("UTC" if tz == "UTC" else "non-UTC"))
+            wrong = [s_ for s_ in servers if perm[s_["id"]] is not (s_["offset_hours"] > 0)]
+            if wrong:
+                s_ = wrong[0]
+                ctx.oracle_fail("upload-permission-depends-on-time-zone",
+                                "process time zone TZ=%s, true UTC now %s: server %s, whose certificate expire%s %g hours %s now, answers upload_permitted()=%r "
+                                "with the default clock" % (tz, real.isoformat(), s_["id"].decode(), "s" if s_["offset_hours"] > 0 else "d",
+                                                            abs(s_["offset_hours"]), "from" if s_["offset_hours"] > 0 else "before", perm[s_["id"]]),
+                                case=cinfo, expected=s_["offset_hours"] > 0, observed=perm[s_["id"]])
+            for fu in (False, True):
+                want, ties = expected_order(W, fu, seeds)
+                if got[fu] != want:
+                    ctx.oracle_fail("upload-list-depends-on-time-zone" if fu else "server-order-not-by-permuted-hash",
+                                    "TZ=%s, true UTC now %s: get_servers_for_psi(for_upload=%s) is not the permuted list of %s"
+                                    % (tz, real.isoformat(), fu, "the servers whose certificate expires after the true UTC now" if fu else "connected servers"),
+                                    case=cinfo, expected=[x.decode() for x in want], observed=[x.decode() for x in got[fu]])
+            spk_ids = {}
+            srvs = [srv_term(W, servers[idx[sid]], idx[sid], seeds[sid], spk_ids) for sid in enum]
+            parts = ["opt_ids_eqb (run_get_servers l psi %s) (Some %s)" % (T.boolean(fu), T.lst([T.N(idx[x]) for x in got[fu]])) for fu in (False, True)]
+            terms.append("(let l := %s in let psi := %s in %s)" % (T.lst(srvs), T.bytes_(W["psi"]), " && ".join(parts)))
+            info.append(("order", ("default-clock", zi, cinfo, [got[False], got[True]])))
+    finally:
+        if saved is None:
+            os.environ.pop("TZ", None)
+        else:
+            os.environ["TZ"] = saved
+        time.tzset()
 
 
 def replay(ctx, rec):
